@@ -626,6 +626,118 @@ fn run_reeval_scenario(rng: &mut Rng, cases: &mut Vec<Case>) {
     }
 }
 
+// ---------------------------------------------------------------------------------------
+// Multigraph scenarios: relationship-level writes where several relationships share their
+// endpoints.  One node per label (A:L0, B:L1, C:L2); 2-4 parallel A->B relationships of one
+// type (some equal-looking: same k0) and of another type, an anti-parallel B->A pair, a
+// self-loop, C->B.  Statements delete / update ONE relationship out of several (property
+// filter on the relationship variable, IN lists), detach-delete an endpoint, create new
+// relationships elsewhere afterwards (id reuse) and read back in both directions, typed and
+// untyped.  The dump lists relationships through every node's adjacency lists.
+// (Class of the seeded change C04-c: delete_edge unlinks the wrong parallel sibling.)
+// ---------------------------------------------------------------------------------------
+
+fn gen_multi_stmt(rng: &mut Rng) -> St {
+    // (start label, end label) of the pattern
+    let (la, lb) = *rng.pick(&[(0u32, 1u32), (0, 1), (0, 1), (1, 0), (2, 1), (0, 0)]);
+    let ty = *rng.pick(&[0u32, 0, 1, 999]);
+    let pat = |rng: &mut Rng| if rng.chance(1, 2) { Cl::MatchR(1, vec![la], 2, ty, 3, vec![lb]) } else { Cl::MatchRRev(1, vec![la], 2, ty, 3, vec![lb]) };
+    let x = rng.range(1, 3);
+    let filt = |rng: &mut Rng| match rng.below(4) {
+        0 => bin("in", Ex::Prop(2, 0), Ex::List(vec![int(x), int(rng.range(1, 4))])),
+        1 => bin("gt", Ex::Prop(2, 0), int(x)),
+        _ => bin("eq", Ex::Prop(2, 0), int(x)),
+    };
+    match rng.below(12) {
+        // delete ONE (or some) of several parallel relationships
+        0 | 1 | 2 => St { cls: vec![pat(rng), Cl::Filter(filt(rng)), Cl::Delete(false, vec![2])], ret: if rng.chance(1, 3) { Some(vec![int(1)]) } else { None } },
+        // update / strip some of them
+        3 => St { cls: vec![pat(rng), Cl::Filter(filt(rng)), Cl::Set(vec![SetItem::Prop(2, 1, int(rng.range(5, 7)))])], ret: None },
+        4 => St { cls: vec![pat(rng), Cl::Filter(filt(rng)), Cl::Remove(vec![RemItem::Prop(2, rng.below(2) as u32)])], ret: None },
+        // read back, both directions, typed and untyped
+        5 | 6 | 7 => St { cls: vec![pat(rng)], ret: Some(vec![Ex::Prop(2, 0), Ex::Prop(2, 1), Ex::Prop(1, 0), Ex::Prop(3, 0)]) },
+        // new relationships elsewhere (their ids are the ones just freed)
+        8 | 9 => {
+            let (s, t) = *rng.pick(&[(2u32, 1u32), (1, 2), (0, 1), (1, 0), (2, 0)]);
+            St {
+                cls: vec![Cl::MatchN(1, vec![s], vec![]), Cl::MatchN(3, vec![t], vec![]), Cl::Create(vec![CPath { a: NPat { var: Some(1), labels: vec![], props: vec![] }, seg: Some((rng.below(2) as u32, vec![(0, int(rng.range(1, 4)))], true, NPat { var: Some(3), labels: vec![], props: vec![] })) }])],
+                ret: None,
+            }
+        }
+        // a self-loop more
+        10 => St { cls: vec![Cl::MatchN(1, vec![rng.below(3) as u32], vec![]), Cl::Create(vec![CPath { a: NPat { var: Some(1), labels: vec![], props: vec![] }, seg: Some((0, vec![(0, int(rng.range(1, 4)))], true, NPat { var: Some(1), labels: vec![], props: vec![] })) }])], ret: None },
+        // detach-delete one endpoint (and put a node of that label back)
+        _ => {
+            let l = rng.below(3) as u32;
+            St { cls: vec![Cl::MatchN(1, vec![l], vec![]), Cl::Delete(true, vec![1])], ret: None }
+        }
+    }
+}
+
+fn run_multi_scenario(rng: &mut Rng, cases: &mut Vec<Case>) {
+    let v = |i: u32| NPat { var: Some(i), labels: vec![], props: vec![] };
+    let mut paths = vec![
+        CPath { a: NPat { var: Some(1), labels: vec![0], props: vec![(0, int(1))] }, seg: None },
+        CPath { a: NPat { var: Some(2), labels: vec![1], props: vec![(0, int(2))] }, seg: None },
+        CPath { a: NPat { var: Some(3), labels: vec![2], props: vec![(0, int(3))] }, seg: None },
+    ];
+    let rel = |a: u32, b: u32, ty: u32, k: i64| CPath { a: v(a), seg: Some((ty, vec![(0, int(k))], true, v(b))) };
+    // 2-4 parallel A->B of type T0; sometimes two of them look alike
+    let n_par = 2 + rng.usize(3);
+    for i in 0..n_par {
+        let k = if i == 1 && rng.chance(1, 4) { 1 } else { i as i64 + 1 };
+        paths.push(rel(1, 2, 0, k));
+    }
+    for i in 0..rng.usize(3) {
+        paths.push(rel(1, 2, 1, i as i64 + 1)); // parallel, other type
+    }
+    if rng.chance(2, 3) {
+        paths.push(rel(2, 1, 0, 1)); // anti-parallel
+        if rng.chance(1, 2) {
+            paths.push(rel(2, 1, 0, 2));
+        }
+    }
+    if rng.chance(1, 2) {
+        paths.push(rel(1, 1, 0, 2)); // self-loop
+    }
+    for i in 0..rng.usize(3) {
+        paths.push(rel(3, 2, 0, i as i64 + 1)); // C->B
+    }
+    // shuffle the relationship paths so that adjacency order and ids do not line up with k0
+    let (nodes, rels) = paths.split_at(3);
+    let idx = shuffled(rng, (0..rels.len() as u32).collect());
+    let mut all: Vec<CPath> = nodes.to_vec();
+    all.extend(idx.into_iter().map(|i| rels[i as usize].clone()));
+    let setup = St { cls: vec![Cl::Create(all)], ret: None };
+
+    let mut store = GraphStore::new();
+    let mut texts = vec![];
+    let n_stmts = 5 + rng.usize(6);
+    for k in 0..1 + n_stmts {
+        let pre = dump(&store);
+        let pg = parse_dump(&pre).unwrap_or_default();
+        let st = if k == 0 {
+            setup.clone()
+        } else {
+            // every label keeps exactly one node: a deleted endpoint is put back
+            let missing = (0..3u32).find(|l| !pg.nodes.iter().any(|(_, lt, _)| lt.split('.').any(|x| x == l.to_string())));
+            match missing {
+                Some(l) => St { cls: vec![Cl::Create(vec![CPath { a: NPat { var: None, labels: vec![l], props: vec![(0, int(l as i64 + 1))] }, seg: None }])], ret: None },
+                None => gen_multi_stmt(rng),
+            }
+        };
+        let text = st.cypher();
+        texts.push(text.clone());
+        let o = exec(&mut store, &text, None);
+        let post = dump(&store);
+        let out = match &o.rows {
+            Ok(rows) => Ok(rows_text(rows)),
+            Err((k, _)) => Err(k.tag().to_string()),
+        };
+        cases.push(Case { pre, st, text, out, post, seq_texts: texts.clone() });
+    }
+}
+
 struct Case {
     pre: String,
     st: St,
@@ -722,6 +834,10 @@ fn main() {
                 stmts.push(if rng.chance(1, 40) { gen_known(&mut rng) } else { gen_stmt(&mut rng) });
             }
             run_sequence(&stmts, &mut cases);
+        }
+        let n_multi = if args.thorough() { 2500 } else { 300 };
+        for _ in 0..n_multi {
+            run_multi_scenario(&mut rng, &mut cases);
         }
         let n_re = if args.thorough() { 2500 } else { 300 };
         for _ in 0..n_re {
